@@ -69,6 +69,14 @@ EXC_TYPES = ('ValueError', 'pkg.mod.Custom', 'KeyboardInterrupt')
 MESSAGES = ('', 'msg', 'a: b', 'line1\nline2', 'x\n\ny', ' lead', 'm\n  File "x", line 1, in y')
 MARKERS = ('    ^^^^^', '      ~~~~^^^')
 
+# Source lines that begin like a line of the traceback grammar without being one: every proper prefix of a stack
+# entry's first line cut at a token boundary, the header line, an exception line.  (A source line that, stripped,
+# is itself a *complete* 'File "...", line N, in name' line is not in the menu: see the assumptions.)
+LOOKALIKE_SOURCES = (
+    'File "%s" could not be opened: %s""" % (name, reason))',
+    'File', 'File "', 'File "x.py"', 'File "x.py", line', 'File "x.py", line 3', 'File "x.py", line 3, in',
+    'Traceback (most recent call last):', 'ValueError: x')
+
 FRAME_MENU = tuple(itertools.product(PATHS, LINES, FUNCS, SOURCES))        # 160 frame variants
 # reduced menu for the longest texts of the quick tier: every path, function, line and source kind occurs,
 # every source kind with two different (path, function) surroundings
@@ -78,7 +86,12 @@ SMALL_MENU = tuple((PATHS[(i + j) % 4], LINES[(i + j) % 2], FUNCS[(i + 2 * j) % 
 # only the line number (crossed with everything else in the 0-2 frame texts) follows from the other indices
 MEDIUM_MENU = tuple((p, LINES[(i + j + k) % 2], f, s) for i, p in enumerate(PATHS)
                     for j, f in enumerate(FUNCS) for k, s in enumerate(SOURCES))
-MENUS = {'full': FRAME_MENU, 'medium': MEDIUM_MENU, 'small': SMALL_MENU}
+# frames whose source line is a lookalike: each with one surrounding here (with all of them in the 1-frame texts)
+LOOK_MENU = tuple((PATHS[i % len(PATHS)], LINES[i % len(LINES)], FUNCS[i % len(FUNCS)], s)
+                  for i, s in enumerate(LOOKALIKE_SOURCES))
+LOOK_ALL = tuple(itertools.product(PATHS, LINES, FUNCS, LOOKALIKE_SOURCES))
+MENUS = {'full': FRAME_MENU, 'medium': MEDIUM_MENU, 'small': SMALL_MENU,
+         'look1': LOOK_ALL, 'look2': LOOK_MENU + FRAME_MENU, 'look3': LOOK_MENU + SMALL_MENU}
 EXC_MENU = tuple(itertools.product(EXC_TYPES, MESSAGES))                     # 21
 
 
@@ -108,7 +121,7 @@ _PIECES = {}
 
 def pieces():
     if not _PIECES:
-        _PIECES['f'] = {fr: frame_text(fr) for fr in FRAME_MENU}
+        _PIECES['f'] = {fr: frame_text(fr) for fr in FRAME_MENU + LOOK_ALL}
         assert set(MEDIUM_MENU) <= set(FRAME_MENU) and set(SMALL_MENU) <= set(FRAME_MENU)
         _PIECES['e'] = {ex: exc_text(ex) for ex in EXC_MENU}
         # harness self-check: the pieces concatenate to what the interpreter prints for a whole traceback
@@ -220,11 +233,41 @@ def text_units(tier):
     else:
         units += [('medium', 3, (i,)) for i in range(len(MEDIUM_MENU))]
         units += [('small', 4, (i,)) for i in range(len(SMALL_MENU))]
+    return units + look_units(tier)
+
+
+def look_units(tier):
+    """Texts in which at least one frame's source line is a grammar lookalike: 1 frame with every surrounding;
+    2 frames: a lookalike frame before and after every frame of the full menu (and every other lookalike);
+    3 (thorough: 4) frames over lookalikes + reduced menu."""
+    units = [('look1', 1, ())]
+    units += [('look2', 2, (i,)) for i in range(len(LOOK_MENU))]
+    units += [('look3', 3, (i,)) for i in range(len(MENUS['look3']))]
+    if tier != 'quick':
+        units += [('look3', 4, (i, j)) for i in range(len(MENUS['look3'])) for j in range(len(MENUS['look3']))]
     return units
+
+
+def look_frames(unit):
+    menu_name, n, prefix = unit
+    menu = MENUS[menu_name]
+    looks = set(LOOK_MENU)
+    if menu_name == 'look1':
+        return ([a] for a in menu)
+    if menu_name == 'look2':
+        a = menu[prefix[0]]
+        return itertools.chain(([a, b] for b in menu), ([b, a] for b in menu if b != a))
+    head = [menu[i] for i in prefix]
+    return (head + list(t) for t in itertools.product(menu, repeat=n - len(head))
+            if ((looks & set(head)) or (looks & set(t)))
+            # more than three identical consecutive entries are not what the interpreter prints (it collapses them)
+            and (n < 4 or len(set(head) | set(t)) > 1))
 
 
 def unit_frames(unit):
     menu_name, n, prefix = unit
+    if menu_name.startswith('look'):
+        return look_frames(unit)
     menu = MENUS[menu_name]
     if n == 2 and prefix:
         firsts = menu[prefix[0]:prefix[0] + 8]
@@ -256,9 +299,11 @@ def text_shard(unit):
 
 
 def marker_units(tier):
+    look = [('look1', 1, ())] + [('look3', 2, (i,)) for i in range(len(MENUS['look3']))]
     if tier == 'quick':
-        return [('small', 1, ()), ('small', 2, ()), ('small', 3, ())]
-    return [('full', 1, ())] + [('full', 2, (i,)) for i in range(0, len(FRAME_MENU), 8)] + [('small', 3, ())]
+        return [('small', 1, ()), ('small', 2, ()), ('small', 3, ())] + look
+    return ([('full', 1, ())] + [('full', 2, (i,)) for i in range(0, len(FRAME_MENU), 8)] + [('small', 3, ())] + look +
+            [('look3', 3, (i,)) for i in range(len(MENUS['look3']))])
 
 
 def marker_shard(unit):
@@ -294,6 +339,11 @@ def marker_shard(unit):
 
 LINKS = ('plain', 'method', 'lambda', 'gen', 'listcomp', 'genexpr', 'closure', 'exec', 'multiline',
          'finally', 'rec2', 'rec3', 'rec4', 'bounce', 'linecache')
+# Links through code that is not in a file: compiled from a string under a virtual (absolute, non-existent) path and
+# run in a namespace that publishes the source through the PEP 302 get_source hook, which linecache - hence the
+# interpreter - consults: 'loader' = namespace with __name__ and __loader__ only (generated/template code, legacy
+# importers); 'specloader' = __spec__ and __loader__ both (what zipimport-like importers produce).
+VIRTUAL_LINKS = ('loader', 'specloader')
 DEEP_LINKS = ('plain', 'lambda', 'exec', 'rec3')
 EXC_KINDS = ('msg', 'empty', 'keyerror', 'multiline', 'custom', 'nested', 'assert', 'badstr')
 RAISE = {
@@ -373,6 +423,22 @@ def program_source(chain, exc):
                        '_lcm.cache[_fn%d] = (len(_src%d), None, _src%d.splitlines(True), _fn%d)\n'
                        'exec(compile(_src%d, _fn%d, "exec"), globals())\n'
                        '%s = _lc%d\n' % (i, i, nxt, i, i, i, i, i, i, i, i, me, i))
+        elif kind in VIRTUAL_LINKS:
+            spec = ("'__spec__': _ilm%d.ModuleSpec(_vname%d, _vld%d), " % (i, i, i)) if kind == 'specloader' else ''
+            src.append('import sys as _sys%(i)d, importlib.machinery as _ilm%(i)d\n'
+                       '\n\n'
+                       'class _Loader%(i)d:\n'
+                       '    def get_source(self, name):\n'
+                       '        return _vsrc%(i)d if name == _vname%(i)d else None\n'
+                       '\n\n'
+                       '_vname%(i)d = __name__ + ".virtual%(i)d"\n'
+                       '_vsrc%(i)d = "# virtual source\\n\\ndef _v%(i)d():\\n    return _up.%(nxt)s()\\n"\n'
+                       '_vpath%(i)d = __file__[:-3] + ".virtual%(i)d.tmpl.py"\n'
+                       '_vld%(i)d = _Loader%(i)d()\n'
+                       '_vns%(i)d = {"__name__": _vname%(i)d, "__loader__": _vld%(i)d, %(spec)s'
+                       '"_up": _sys%(i)d.modules[__name__]}\n'
+                       'exec(compile(_vsrc%(i)d, _vpath%(i)d, "exec"), _vns%(i)d)\n'
+                       '%(me)s = _vns%(i)d["_v%(i)d"]\n' % {'i': i, 'nxt': nxt, 'me': me, 'spec': spec.replace("'", '"')})
         elif kind.startswith('rec'):
             k = int(kind[3:])
             src.append('def %s(n=%d):\n    return %s(n - 1) if n else %s()\n' % (me, k, me, nxt))
@@ -440,11 +506,21 @@ def load_program(root, chain, exc):
 
 def unload_program(name, path):
     sys.modules.pop(name, None)
-    linecache.cache.pop(path, None)
+    for k in [k for k in linecache.cache if k.startswith(path[:-3])]:       # the file and its virtual companions
+        linecache.cache.pop(k, None)
     try:
         os.unlink(path)
     except OSError:
         pass
+
+
+def cool_linecache():
+    """Forget every linecache entry that linecache can rebuild by itself (files on disk, loader-backed virtual
+    files).  Entries under synthetic '<...>' names were registered by hand and stay.  Called after the oracle was
+    asked and before tbutils is: tbutils must find the source lines by itself, not in what the traceback module left
+    in the cache.  (TracebackInfo then runs on a cold cache, the classes after it on a warm one.)"""
+    for k in [k for k in linecache.cache if not (k.startswith('<') and k.endswith('>'))]:
+        linecache.cache.pop(k, None)
 
 
 def tb_frames(tbi):
@@ -586,6 +662,7 @@ def check_program(root, chain, exc, contextual=True):
         if e is None or e.__cause__ is not None or e.__context__ is not None or getattr(e, '__notes__', None):
             raise RuntimeError('generated program did not raise a plain exception: %r' % (e,))
         want = interpreter_view(e)
+        cool_linecache()
         out = compare_program(e, want, exc, contextual)
         info = {'frames': len(want['frames']), 'collapsed': want['collapsed']}
     finally:
@@ -645,8 +722,11 @@ def reloaded_shard(arg):
 def program_chains(tier):
     """Chains in simplest-first order."""
     maxlen = 3 if tier == 'quick' else 4
+    vlen = maxlen - 1                       # chains containing a virtual link: one link shorter
     for n in range(maxlen + 1):
-        yield from itertools.product(LINKS, repeat=n)
+        for c in itertools.product(LINKS + VIRTUAL_LINKS, repeat=n):
+            if n <= vlen or not (set(c) & set(VIRTUAL_LINKS)):
+                yield c
     deep = (4,) if tier == 'quick' else (5, 6)
     for n in deep:
         yield from itertools.product(DEEP_LINKS, repeat=n)
